@@ -372,3 +372,212 @@ def c12_r9(ctx):
                         % (fi.full, _s(r.value)[:50]))
     if n < 4:
         raise AnalysisError('C12.R9: only %d returns examined' % n)
+
+
+# ---------------------------------------------------------------------------
+# C03.R8: per-assembly power data come from the assembly's own record
+
+def c03_r8(ctx):
+    """(C03) Reactor._setup_asm_power, user-power branch: the axial mesh, the
+    average profile and the component profiles of position i are all read
+    from ONE record, and that record is selected by i."""
+    fi = ctx.repo.func('reactor', 'Reactor._setup_asm_power')
+    loops = [n for n in walk_no_nested(fi.node) if isinstance(n, ast.For)
+             and isinstance(n.target, ast.Name)
+             and "['Assignment']['ByPosition']" in src(n.iter)]
+    if len(loops) != 1:
+        raise AnalysisError('_setup_asm_power: position loop')
+    lp = loops[0]
+    i = lp.target.id
+    br = [n for n in ast.walk(lp) if isinstance(n, ast.If)
+          and _s(n.test).startswith('%s in ' % i)]
+    if len(br) != 1:
+        raise AnalysisError('_setup_asm_power: user-power branch')
+    body = br[0].body
+    want = {'z_mesh': "['zfm']", 'avg_power_profile': "['avg_power']",
+            'power_profile': ''}
+    roots = {}
+    for nm, suffix in want.items():
+        a = [x for st in body for x in ast.walk(st) if isinstance(
+            x, ast.Assign) and len(x.targets) == 1 and isinstance(
+                x.targets[0], ast.Name) and x.targets[0].id == nm]
+        if len(a) != 1:
+            raise AnalysisError('_setup_asm_power: binding of %s' % nm)
+        e = U.value_at(fi.node, a[0].value, a[0].lineno, keep=(i,))
+        t = _s(e)
+        ok = t.endswith(suffix)
+        root = t[:len(t) - len(suffix)] if ok else t
+        roots[nm] = (root, a[0], ok)
+    rs = {r for r, a, ok in roots.values()}
+    good = all(ok for r, a, ok in roots.values()) and len(rs) == 1 and any(
+        isinstance(x, ast.Name) and x.id == i
+        for x in ast.walk(ast.parse(next(iter(rs)), mode='eval')))
+    bad = [a for r, a, ok in roots.values()][0]
+    for nm, (r, a, ok) in roots.items():
+        if not ok or sum(1 for r2, _, _ in roots.values() if r2 == r) == 1:
+            bad = a
+    ctx.require(good, 'C03.R8', fi, bad,
+                'axial power mesh, average profile and component profiles of '
+                'a position must come from that position\'s own user-power '
+                'record (got %s): a mesh taken from another assembly applies '
+                'the cell averages over the wrong spans'
+                % {k: v[0] for k, v in roots.items()},
+                key='%s | own record' % fi.full)
+
+
+# ---------------------------------------------------------------------------
+# C07.R6: masks of the 0-based pin adjacency
+
+def c07_r6(ctx):
+    """(C07) outside subchannel.py the pin<->subchannel adjacency arrays are
+    0-based with -1 as filler: a mask that treats index 0 as 'no neighbour'
+    singles out one absolute subchannel / pin."""
+    ok_pairs = {(ast.Lt, 0), (ast.GtE, 0), (ast.Eq, -1), (ast.NotEq, -1),
+                (ast.Gt, -1), (ast.LtE, -1)}
+    sub = ctx.repo.func('subchannel', 'Subchannel.__init__')
+    shifted = any(isinstance(a, ast.AugAssign) and isinstance(a.op, ast.Sub)
+                  and _s(a.target) == 'self.pin_adj' and const(a.value) == 1
+                  for a in ast.walk(sub.node))
+    if not shifted:
+        raise AnalysisError('Subchannel.__init__: pin_adj is no longer '
+                            'shifted to base 0')
+    n = 0
+    for m in ctx.repo.modules.values():
+        if m.name.endswith('.subchannel'):
+            continue
+        for fi in m.funcs.values():
+            for c in ast.walk(fi.node):
+                if not (isinstance(c, ast.Compare) and len(c.ops) == 1):
+                    continue
+                l, r = c.left, c.comparators[0]
+                if not (isinstance(l, ast.Attribute) and l.attr in (
+                        'pin_adj', 'rev_pin_adj')):
+                    continue
+                v = const(r)
+                if isinstance(r, ast.UnaryOp) and isinstance(
+                        r.op, ast.USub):
+                    v = -const(r.operand) if isinstance(
+                        const(r.operand), int) else None
+                if not isinstance(v, int):
+                    continue
+                n += 1
+                ctx.require((type(c.ops[0]), v) in ok_pairs, 'C07.R6', fi, c,
+                            'mask `%s` on a 0-based adjacency array with -1 '
+                            'filler: entry 0 is a real neighbour (subchannel '
+                            '/ pin number 0), so this test drops or keeps '
+                            'one absolute index' % _s(c),
+                            key='%s | mask %s' % (fi.full, _s(l)))
+    if n < 2:
+        raise AnalysisError('C07.R6: only %d masks found' % n)
+
+
+# ---------------------------------------------------------------------------
+# C09.R7: gap cell area from the cell's own perimeter share
+
+def c09_r7(ctx):
+    """(C09) Core._calculate_sc_area: no absolute side index into the
+    per-(assembly, side) tables, and an isolated corner cell takes its own
+    share of the duct perimeter (gap_params['asm wp'][asm, loc] of the
+    adjacency look-up)."""
+    fi = ctx.repo.func('core', 'Core._calculate_sc_area')
+    fixed = []
+    for x in ast.walk(fi.node):
+        if isinstance(x, ast.Subscript) and isinstance(x.slice, ast.Tuple) \
+                and len(x.slice.elts) >= 2 and (
+                    "_geom_params" in src(x.value)
+                    or "gap_params" in src(x.value)):
+            second = x.slice.elts[1]
+            if isinstance(const(second), int) or (isinstance(
+                    second, ast.UnaryOp) and isinstance(
+                        const(second.operand), int)):
+                fixed.append(x)
+    ctx.require(not fixed, 'C09.R7', fi, fixed[0] if fixed else fi.node,
+                'gap cell area reads a per-side table at a fixed side index '
+                '(%s): the side facing a finer neighbour carries the '
+                'neighbour\'s mesh, so the area becomes mesh dependent'
+                % [_s(f) for f in fixed],
+                key='%s | no fixed side' % fi.full)
+    sts = [st for t, st in U.stores(fi.node) if isinstance(st, ast.Assign)
+           and _s(t) == 'area[i]']
+    own = [st for st in sts if "['asm wp'][asm[0], loc[0]]" in _s(st.value)]
+    ctx.require(len(own) == 1 and any(
+        'len(asm) == 1' in _s(t) for t, pol in U.guards(own[0])
+        if pol) if own else False, 'C09.R7', fi, sts[0] if sts else fi.node,
+        'an isolated corner cell (one adjacent assembly) takes its own '
+        'perimeter share gap_params[\'asm wp\'][asm[0], loc[0]]',
+        key='%s | isolated corner' % fi.full)
+
+
+# ---------------------------------------------------------------------------
+# C13.R7: the film correlation uses all four user coefficients
+
+def c13_r7(ctx):
+    """(C13) Nu = A Re^B Pr^C + D: _dittus_boelter raises Re and Pr to their
+    own exponents, and the bundle / subchannel entry points hand it the
+    Reynolds number they were given and the coolant's Prandtl number."""
+    from ..core import find_all
+    m = 'correlations.nusselt_db'
+    db = ctx.repo.func(m, '_dittus_boelter')
+    re_, pr_, c_ = db.params[:3]
+    pats = ['return %s[0] * %s**%s[1] * %s**%s[2] + %s[3]'
+            % (c_, re_, c_, pr_, c_, c_),
+            'return %s[0] * (%s**%s[1] * %s**%s[2]) + %s[3]'
+            % (c_, re_, c_, pr_, c_, c_)]
+    hit = any(find_all(p, db.node, 'stmt') for p in pats)
+    if not hit:
+        # accept np.power spelling
+        rets = [r for r in ast.walk(db.node) if isinstance(r, ast.Return)]
+        hit = len(rets) == 1 and _s(rets[0].value) in (
+            '%s[0] * np.power(%s, %s[1]) * np.power(%s, %s[2]) + %s[3]'
+            % (c_, re_, c_, pr_, c_, c_),)
+    ctx.require(hit, 'C13.R7', db, db.node,
+                'Nu must be consts[0] * Re**consts[1] * Pr**consts[2] + '
+                'consts[3]', key=db.full + ' | form')
+    for q in ('calculate_bundle_Nu', 'calculate_sc_Nu'):
+        fi = ctx.repo.func(m, q)
+        rets = [r for r in walk_no_nested(fi.node)
+                if isinstance(r, ast.Return) and r.value is not None]
+        ok = False
+        txt = ''
+        if len(rets) == 1:
+            e = U.value_at(fi.node, rets[0].value, rets[0].lineno,
+                           keep=tuple(fi.params))
+            txt = _s(e)
+            ok = txt == '_dittus_boelter(%s, _calc_prandtl(%s), %s)' % (
+                fi.params[1], fi.params[0], fi.params[2])
+        ctx.require(ok, 'C13.R7', fi, rets[0] if rets else fi.node,
+                    '%s must evaluate _dittus_boelter(Re, Pr(coolant), '
+                    'consts) with Re and Pr as separate arguments; got `%s`'
+                    % (q, txt), key=fi.full + ' | arguments')
+
+
+# ---------------------------------------------------------------------------
+# C18.R7: user-power labels are 1..N
+
+def c18_r7(ctx):
+    """(C18) power._check_component_indexing: the item count N is the LARGEST
+    label, so that 'rows = regions x N' together with the per-region
+    contiguity test rejects every label set other than 1..N."""
+    fi = ctx.repo.func('power', '_check_component_indexing')
+    arr = fi.params[0]
+    d = [a for a in ast.walk(fi.node) if isinstance(a, ast.Assign)
+         and isinstance(a.targets[0], ast.Name)
+         and a.targets[0].id == 'N_idx']
+    ok = len(d) == 1 and _s(d[0].value) in (
+        'np.max(%s[:, 4])' % arr, 'max(%s[:, 4])' % arr,
+        '%s[:, 4].max()' % arr, 'np.amax(%s[:, 4])' % arr)
+    ctx.require(ok, 'C18.R7', fi, d[0] if d else fi.node,
+                'the required item count must be the largest label '
+                'np.max(%s[:, 4]) (a count of distinct labels accepts label '
+                'sets with gaps)' % arr, key=fi.full + ' | N is max label')
+    shape = [c for c in ast.walk(fi.node) if isinstance(c, ast.Compare)
+             and _s(c) in ('%s.shape[0] == N_axial_regions * N_idx' % arr,
+                           '%s.shape[0] == N_idx * N_axial_regions' % arr,
+                           '%s.shape[0] != N_axial_regions * N_idx' % arr)]
+    cont = [c for c in ast.walk(fi.node) if isinstance(c, ast.Call)
+            and call_name(c) in ('np.allclose', 'np.array_equal')
+            and 'np.arange(1, N_idx + 1)' in _s(c)]
+    ctx.require(bool(shape) and bool(cont), 'C18.R7', fi, fi.node,
+                'row-count test (rows = regions x N) and per-region '
+                'contiguity test (labels == 1..N) must both be present',
+                key=fi.full + ' | tests present')
